@@ -112,6 +112,18 @@ func (_this *Session) GetIteratorForType(t reflect.Type) IteratorFunction {
 		return storedIterator.(IteratorFunction)
 	}
 
+	defer func() {
+		if iterator == nil {
+			// Generating the iterator failed (panicked). Don't leave the
+			// placeholder behind: it would block every later user of this type.
+			_this.iteratorFuncs.Delete(t)
+			iterator = func(*Context, reflect.Value) {
+				panic(fmt.Errorf("no iterator could be generated for type %v", t))
+			}
+			wg.Done()
+		}
+	}()
+
 	iterator = _this.getDefaultIteratorForType(t)
 	wg.Done()
 	_this.iteratorFuncs.Store(t, iterator)
